@@ -79,10 +79,29 @@ func c13Lazy(r *mon.Run, t *chainlab.Tree, node *chainlab.TestNode, rng *rand.Ra
 		return
 	}
 	cs.Set = describeV2Set(append(append([]types.V2Transaction{}, parents...), child))
+	// the caller either rebased its child itself, or hands it over as it was
+	// built, with the index it was built for (the pooled parents it depends on
+	// are kept current by the pool; only the child needs rebasing)
+	askBasis := to.L.State.Index
+	if rng.IntN(2) == 0 && len(wantParents) > 0 {
+		// only when every non-ephemeral input of the child exists at the old
+		// index too (an output of a parent confirmed by the block does not)
+		old := true
+		for _, in := range child.SiacoinInputs {
+			if in.Parent.StateElement.LeafIndex == types.UnassignedLeafIndex && !eph[types.Hash256(in.Parent.ID)] {
+				old = false
+			}
+		}
+		if old {
+			rb, askBasis = child.DeepCopy(), from.L.State.Index
+			cs.Mut += " child-at-old-basis"
+			r.Count("txnset_child_given_at_an_older_basis_with_pooled_parents", 1)
+		}
+	}
 	var basis types.ChainIndex
 	var set []types.V2Transaction
 	var err error
-	if pn := mon.Guard(func() { basis, set, err = cm.V2TransactionSet(to.L.State.Index, rb) }); pn != nil {
+	if pn := mon.Guard(func() { basis, set, err = cm.V2TransactionSet(askBasis, rb) }); pn != nil {
 		r.Violation("txnset-panic:after-tip-change", fmt.Sprint("V2TransactionSet panicked: ", pn), cs, nil)
 		return
 	}
